@@ -280,6 +280,58 @@ theorem C17_matchRoute_first (e : Enum1) (segs : List Str) (k : Nat) (vals : Lis
         ∀ u ∈ e.variants, ¬ ∃ vals', Accepts (nestedOf e.inner) u segs vals') := by
   simpa using matchVariants_first (nestedOf e.inner) e.notFound e.variants 0 segs k vals hwf h
 
+theorem accepts_functional {nested v segs vals vals'} (h1 : Accepts nested v segs vals)
+    (h2 : Accepts nested v segs vals') : vals = vals' := by
+  obtain ⟨c1, f1, p1⟩ := h1
+  obtain ⟨c2, f2, p2⟩ := h2
+  have := fits_functional f1 f2
+  subst this
+  rw [p1] at p2
+  simpa using p2
+
+/-- (exactly: converse of `C17_matchRoute_first`) If a variant accepts the segments and no earlier
+variant does, the derived enum returns that variant with its field values. -/
+theorem C17_matchRoute_complete (e : Enum1) (segs : List Str) (pre post : List Variant) (v : Variant)
+    (vals : List FVal)
+    (hwf : ∀ v ∈ e.variants, WFVariant v) (hwf0 : ∀ v ∈ e.inner.variants, WFVariant v)
+    (hsplit : e.variants = pre ++ v :: post)
+    (hacc : Accepts (nestedOf e.inner) v segs vals)
+    (hpre : ∀ u ∈ pre, ¬ ∃ vals', Accepts (nestedOf e.inner) u segs vals') :
+    matchRoute1 e segs = .ok (pre.length, vals) := by
+  obtain ⟨⟨k, vals2⟩, hr⟩ := C17_matchRoute_total e segs hwf hwf0
+  rcases C17_matchRoute_first e segs k vals2 hwf hr with ⟨pre2, v2, post2, e1, e2, e3, e4⟩ | ⟨_, _, hnone⟩
+  · rw [hsplit] at e1
+    rcases List.append_eq_append_iff.1 e1 with ⟨a', ha, hb⟩ | ⟨c', ha, hb⟩
+    · cases a' with
+      | nil =>
+        simp at ha hb
+        obtain ⟨rfl, _⟩ := hb
+        subst ha
+        rw [hr, e2, accepts_functional e3 hacc]
+      | cons x a'' =>
+        simp at hb
+        exact absurd ⟨vals, hacc⟩ (e4 v (by rw [ha, hb.1]; simp))
+    · cases c' with
+      | nil =>
+        simp at ha hb
+        obtain ⟨rfl, _⟩ := hb
+        subst ha
+        rw [hr, e2, accepts_functional e3 hacc]
+      | cons x c'' =>
+        simp at hb
+        exact absurd ⟨vals2, e3⟩ (hpre v2 (by rw [ha, hb.1]; simp))
+  · exact absurd ⟨vals, hacc⟩ (hnone v (by rw [hsplit]; simp))
+
+/-- (else not_found, converse) -/
+theorem C17_matchRoute_notFound (e : Enum1) (segs : List Str)
+    (hwf : ∀ v ∈ e.variants, WFVariant v) (hwf0 : ∀ v ∈ e.inner.variants, WFVariant v)
+    (hnone : ∀ u ∈ e.variants, ¬ ∃ vals', Accepts (nestedOf e.inner) u segs vals') :
+    matchRoute1 e segs = .ok (e.notFound, []) := by
+  obtain ⟨⟨k, vals2⟩, hr⟩ := C17_matchRoute_total e segs hwf hwf0
+  rcases C17_matchRoute_first e segs k vals2 hwf hr with ⟨pre2, v2, post2, e1, _, e3, _⟩ | ⟨rfl, rfl, _⟩
+  · exact absurd ⟨vals2, e3⟩ (hnone v2 (by rw [e1]; simp))
+  · exact hr
+
 /-! ### Non-vacuity: concrete instances of the hypotheses -/
 
 /-- `/<a>/x/<rest..>/end` is well formed and matches `/7/x/p/q/end?z#f`. -/
